@@ -28,6 +28,23 @@ def shellOf (j : Json) : Except String (EShell String) := do
 def rshellJson (s : RShell String) : Json :=
   obj [("ftype", Json.str (String.ofList s.ftype)), ("am", toJson s.am), ("exps", toJson s.exps), ("coefs", toJson s.coefs)]
 
+def isIntTok (s : String) : Bool :=
+  let l := match s.toList with | '-' :: r => r | '+' :: r => r | r => r
+  !l.isEmpty && l.all Char.isDigit
+
+def TE : EcpTables String := { T with isInt := isIntTok, isDigits := fun s => !s.isEmpty && s.all Char.isDigit }
+
+def potOf (j : Json) : Except String (EPot String) := do
+  let am ← getNat j "am"
+  let terms ← (← getArr j "terms").mapM fun t => do
+    match ← strList t with
+    | [a, b, c] => pure (a, b, c)
+    | _ => throw "term"
+  pure { am := am, terms := terms }
+
+def rpotJson (p : RPot String) : Json :=
+  obj [("am", match p.am with | some l => toJson l | none => Json.null), ("rexp", toJson p.rexp), ("gexp", toJson p.gexp), ("coef", toJson p.coef)]
+
 def errName : RErr → String
   | .runtime => "RuntimeError" | .key => "KeyError" | .index => "IndexError"
 
@@ -43,6 +60,18 @@ def handlers : List (String × Handler) := [
     let lines ← (← getArr j "lines").mapM lineOf
     match readElectron T lines with
     | .ok r => pure (obj [("ok", Json.arr (r.map fun e => Json.arr #[toJson e.1, Json.arr (e.2.map rshellJson).toArray]).toArray)])
+    | .error e => pure (obj [("raise", Json.str (errName e))])),
+  ("nwchem_ecp_write", fun j => do
+    let els ← (← getArr j "els").mapM fun e => do
+      let z ← getNat e "z"
+      let n ← getStr e "nelec"
+      let pots ← (← getArr e "pots").mapM potOf
+      pure (z, n.toList, pots)
+    pure (obj [("lines", Json.arr ((ecpLines TE els).map lineJson).toArray)])),
+  ("nwchem_ecp_read", fun j => do
+    let lines ← (← getArr j "lines").mapM lineOf
+    match readEcp TE lines with
+    | .ok r => pure (obj [("ok", Json.arr (r.map fun e => Json.arr #[toJson e.1, Json.str (String.ofList e.2.1), Json.arr (e.2.2.map rpotJson).toArray]).toArray)])
     | .error e => pure (obj [("raise", Json.str (errName e))]))
 ]
 
